@@ -6,6 +6,7 @@ from ..mon_output import mon_value_accounting
 PROPERTY = 'C04'
 CASES = {'quick': 168, 'thorough': 3000}
 BUDGET_S = {'quick': 200, 'thorough': 1800}
+SUITE_UNDER_MONITORS = True      # thorough tier: the repository's own tests are an extra workload under the passive monitors
 RULE = ('case = one random portfolio mixing periodic, coarse-frequency, scaled and structured assets, order books (some orders outside the '
         'horizon), CHP/Plant (appended booleans), storages, with wacc != 0 in a part of the assets, optimised monolithically or split (partial '
         'last interval) through the real code and extracted; while Portfolio.setup_optim_problem runs the wrapper records each asset\'s own '
